@@ -1,6 +1,6 @@
 //! C18 — TLS acceptors bound handshake time and concurrency and carry data intact.
 //!
-//! Real `actix_tls::accept::{rustls_0_23, openssl}` acceptor services over an in-memory duplex, under Tokio's
+//! Real `actix_tls::accept::{rustls_0_23, openssl, rustls_0_20, rustls_0_21, rustls_0_22, native_tls}` acceptor services over an in-memory duplex, under Tokio's
 //! paused clock (virtual time): completion instants are exact, so the timing rules are decided in logical time.
 
 use std::{
@@ -12,7 +12,9 @@ use std::{
 };
 
 use actix_service::{Service, ServiceFactory};
-use actix_tls::accept::{max_concurrent_tls_connect, openssl as aossl, rustls_0_23 as arustls, TlsError};
+use actix_tls::accept::{
+    max_concurrent_tls_connect, native_tls as antls, openssl as aossl, rustls_0_20 as arustls20, rustls_0_21 as arustls21, rustls_0_22 as arustls22, rustls_0_23 as arustls, TlsError,
+};
 use tokio::io::{AsyncRead, AsyncReadExt, AsyncWrite, AsyncWriteExt};
 use tokio_rustls::rustls;
 use vh_core::{exec::new_waker, fnv_str, json, Args, Report, Rng, Value};
@@ -28,9 +30,19 @@ type BoxRw = Box<dyn Rw>;
 
 #[derive(Clone, Copy, Debug, PartialEq, Eq)]
 pub enum Kind {
+    /// rustls 0.23
     Rustls,
     OpenSsl,
+    Rustls20,
+    Rustls21,
+    Rustls22,
+    NativeTls,
 }
+
+/// the two adapters every scenario list runs against in full, and the four structurally parallel ones (older rustls
+/// generations, native-tls) that get the same lists (quick: a thinned repetition count)
+pub const MAIN_KINDS: [Kind; 2] = [Kind::Rustls, Kind::OpenSsl];
+pub const OTHER_KINDS: [Kind; 4] = [Kind::Rustls20, Kind::Rustls21, Kind::Rustls22, Kind::NativeTls];
 
 #[derive(Clone, Copy, Debug, PartialEq, Eq)]
 pub enum Client {
@@ -60,6 +72,29 @@ pub fn rustls_server_config(id: &Identity) -> rustls::ServerConfig {
     rustls::ServerConfig::builder().with_no_client_auth().with_single_cert(vec![cert], key).unwrap()
 }
 
+pub fn rustls20_server_config(id: &Identity) -> tokio_rustls_023::rustls::ServerConfig {
+    use tokio_rustls_023::rustls as r;
+    r::ServerConfig::builder().with_safe_defaults().with_no_client_auth().with_single_cert(vec![r::Certificate(id.cert_der.clone())], r::PrivateKey(id.key_der.clone())).unwrap()
+}
+
+pub fn rustls21_server_config(id: &Identity) -> tokio_rustls_024::rustls::ServerConfig {
+    use tokio_rustls_024::rustls as r;
+    r::ServerConfig::builder().with_safe_defaults().with_no_client_auth().with_single_cert(vec![r::Certificate(id.cert_der.clone())], r::PrivateKey(id.key_der.clone())).unwrap()
+}
+
+pub fn rustls22_server_config(id: &Identity) -> tokio_rustls_025::rustls::ServerConfig {
+    use tokio_rustls_025::rustls as r;
+    let cert = r::pki_types::CertificateDer::from(id.cert_der.clone());
+    let key = r::pki_types::PrivateKeyDer::try_from(id.key_der.clone()).unwrap();
+    r::ServerConfig::builder().with_no_client_auth().with_single_cert(vec![cert], key).unwrap()
+}
+
+pub fn native_tls_acceptor(id: &Identity) -> tokio_native_tls::TlsAcceptor {
+    use tokio_native_tls::native_tls as n;
+    let ident = n::Identity::from_pkcs8(id.cert_pem.as_bytes(), id.key_pem.as_bytes()).unwrap();
+    tokio_native_tls::TlsAcceptor::from(n::TlsAcceptor::new(ident).unwrap())
+}
+
 pub fn openssl_acceptor(id: &Identity) -> openssl::ssl::SslAcceptor {
     use openssl::{pkey::PKey, ssl, x509::X509};
     let mut b = ssl::SslAcceptor::mozilla_intermediate_v5(ssl::SslMethod::tls()).unwrap();
@@ -81,10 +116,36 @@ pub fn openssl_client(pki: &Pki) -> openssl::ssl::SslConnector {
     b.build()
 }
 
-/// The acceptor service under test, type-erased over the two implementations.
+/// The acceptor service under test, type-erased over the implementations.
 pub enum Svc {
     R(arustls::AcceptorService),
     O(aossl::AcceptorService),
+    R20(arustls20::AcceptorService),
+    R21(arustls21::AcceptorService),
+    R22(arustls22::AcceptorService),
+    N(antls::AcceptorService),
+}
+
+macro_rules! each_svc {
+    ($self:expr, $s:ident => $body:expr) => {
+        match $self {
+            Svc::R($s) => $body,
+            Svc::O($s) => $body,
+            Svc::R20($s) => $body,
+            Svc::R21($s) => $body,
+            Svc::R22($s) => $body,
+            Svc::N($s) => $body,
+        }
+    };
+}
+
+macro_rules! build_svc {
+    ($variant:ident, $acceptor:expr, $timeout:expr, $via_clone:expr) => {{
+        let mut a = $acceptor;
+        a.set_handshake_timeout($timeout);
+        let a = if $via_clone { a.clone() } else { a };
+        Svc::$variant(ServiceFactory::<Pipe>::new_service(&a, ()).await.unwrap())
+    }};
 }
 
 impl Svc {
@@ -92,51 +153,30 @@ impl Svc {
     /// its factories); the configuration, handshake timeout included, travels with the clone.
     pub async fn new(kind: Kind, pki: &Pki, timeout: Duration, via_clone: bool) -> Svc {
         match kind {
-            Kind::Rustls => {
-                let mut a = arustls::Acceptor::new(rustls_server_config(&pki.good));
-                a.set_handshake_timeout(timeout);
-                let a = if via_clone { a.clone() } else { a };
-                Svc::R(ServiceFactory::<Pipe>::new_service(&a, ()).await.unwrap())
-            }
-            Kind::OpenSsl => {
-                let mut a = aossl::Acceptor::new(openssl_acceptor(&pki.good));
-                a.set_handshake_timeout(timeout);
-                let a = if via_clone { a.clone() } else { a };
-                Svc::O(ServiceFactory::<Pipe>::new_service(&a, ()).await.unwrap())
-            }
+            Kind::Rustls => build_svc!(R, arustls::Acceptor::new(rustls_server_config(&pki.good)), timeout, via_clone),
+            Kind::OpenSsl => build_svc!(O, aossl::Acceptor::new(openssl_acceptor(&pki.good)), timeout, via_clone),
+            Kind::Rustls20 => build_svc!(R20, arustls20::Acceptor::new(rustls20_server_config(&pki.good)), timeout, via_clone),
+            Kind::Rustls21 => build_svc!(R21, arustls21::Acceptor::new(rustls21_server_config(&pki.good)), timeout, via_clone),
+            Kind::Rustls22 => build_svc!(R22, arustls22::Acceptor::new(rustls22_server_config(&pki.good)), timeout, via_clone),
+            Kind::NativeTls => build_svc!(N, antls::Acceptor::new(native_tls_acceptor(&pki.good)), timeout, via_clone),
         }
     }
 
     pub fn poll_ready(&self, cx: &mut Context<'_>) -> Poll<Result<(), ()>> {
-        match self {
-            Svc::R(s) => Service::<Pipe>::poll_ready(s, cx).map_err(|_| ()),
-            Svc::O(s) => Service::<Pipe>::poll_ready(s, cx).map_err(|_| ()),
-        }
+        each_svc!(self, s => Service::<Pipe>::poll_ready(s, cx).map_err(|_| ()))
     }
 
     pub fn accept(&self, io: Pipe) -> Pin<Box<dyn Future<Output = (Outcome, Option<BoxRw>)>>> {
-        match self {
-            Svc::R(s) => {
-                let f = s.call(io);
-                Box::pin(async move {
-                    match f.await {
-                        Ok(st) => (Outcome::Stream, Some(Box::new(st) as BoxRw)),
-                        Err(TlsError::Timeout) => (Outcome::Timeout, None),
-                        Err(_) => (Outcome::TlsError, None),
-                    }
-                })
-            }
-            Svc::O(s) => {
-                let f = s.call(io);
-                Box::pin(async move {
-                    match f.await {
-                        Ok(st) => (Outcome::Stream, Some(Box::new(st) as BoxRw)),
-                        Err(TlsError::Timeout) => (Outcome::Timeout, None),
-                        Err(_) => (Outcome::TlsError, None),
-                    }
-                })
-            }
-        }
+        each_svc!(self, s => {
+            let f = s.call(io);
+            Box::pin(async move {
+                match f.await {
+                    Ok(st) => (Outcome::Stream, Some(Box::new(st) as BoxRw)),
+                    Err(TlsError::Timeout) => (Outcome::Timeout, None),
+                    Err(_) => (Outcome::TlsError, None),
+                }
+            })
+        })
     }
 }
 
@@ -210,6 +250,10 @@ pub struct Seen {
     pub max_concurrent: u64,
     pub acceptors_built_from_clone: u64,
     pub small_transport_buffers: u64,
+    /// per adapter (index = Kind as usize): handshakes completed, exact timeouts, gate scenarios
+    pub kind_ok: [u64; 6],
+    pub kind_timeouts: [u64; 6],
+    pub kind_gates: [u64; 6],
 }
 
 async fn exchange(server: &mut BoxRw, client: &mut BoxRw, r: &mut Rng, seen: &mut Seen) -> Result<(), Fail> {
@@ -329,6 +373,7 @@ pub async fn accept_case(kind: Kind, client: Client, timeout: Duration, pki: Arc
                 return Err(Fail { sig: "C18:complete-handshake-rejected".into(), desc: format!("{what}: outcome {outcome:?} after {} ms", el.as_millis()) });
             }
             seen.handshakes_ok += 1;
+            seen.kind_ok[kind as usize] += 1;
             let mut server = server_stream.unwrap();
             let mut client_stream = match cl.await {
                 Ok(Some(c)) => c,
@@ -349,6 +394,7 @@ pub async fn accept_case(kind: Kind, client: Client, timeout: Duration, pki: Arc
                 return Err(Fail { sig: "C18:timeout-fired-early".into(), desc: format!("{what}: Timeout after only {} ms", el.as_millis()) });
             }
             seen.timeouts_exact += 1;
+            seen.kind_timeouts[kind as usize] += 1;
             if matches!(client, Client::StallAfter(_)) {
                 seen.stall_points += 1;
             }
@@ -489,7 +535,8 @@ pub fn run(args: &Args, rep: &mut Report) {
             let mut seen = Seen::default();
             let mut out: Vec<(String, Option<Fail>)> = Vec::new();
             let mut case_no = 0u64;
-            for kind in [Kind::Rustls, Kind::OpenSsl] {
+            for kind in MAIN_KINDS.into_iter().chain(OTHER_KINDS) {
+                let main = MAIN_KINDS.contains(&kind);
                 // 1. learn the byte positions of a successful handshake
                 let chunks = match accept_case(kind, Client::CompleteRustls, Duration::from_secs(3), pki2.clone(), seed, &mut seen).await {
                     Ok(c) => c,
@@ -526,7 +573,12 @@ pub fn run(args: &Args, rep: &mut Report) {
                     clients.push(Client::StallAfter(*p));
                     clients.push(Client::CloseAfter(*p));
                 }
-                let reps = if thorough { 400 } else { 8 };
+                let reps = match (thorough, main) {
+                    (true, true) => 400,
+                    (true, false) => 100,
+                    (false, true) => 8,
+                    (false, false) => 3,
+                };
                 for rep_no in 0..reps {
                     for t in &timeouts {
                         for c in &clients {
@@ -568,11 +620,12 @@ pub fn run(args: &Args, rep: &mut Report) {
 
     // ---- concurrency gate: a fresh thread per (kind, limit, op sequence)
     let n_gate = if thorough { 1500 } else { 16 };
+    let n_gate_other = if thorough { 400 } else { 6 };
     let mut r = Rng::new(args.seed ^ 0xC18).fork(args.shard);
     let mut i = 0u64;
-    for kind in [Kind::Rustls, Kind::OpenSsl] {
+    for kind in MAIN_KINDS.into_iter().chain(OTHER_KINDS) {
         for limit in 1..=3usize {
-            for _ in 0..n_gate {
+            for _ in 0..(if MAIN_KINDS.contains(&kind) { n_gate } else { n_gate_other }) {
                 i += 1;
                 let ops_seed = r.next_u64();
                 if !args.mine(i) {
@@ -580,6 +633,7 @@ pub fn run(args: &Args, rep: &mut Report) {
                 }
                 rep.evaluations += 1;
                 seen.gate_scenarios += 1;
+                seen.kind_gates[kind as usize] += 1;
                 match gate_case(kind, limit, ops_seed, pki.clone()) {
                     Ok((rd, pd, wk, mx)) => {
                         seen.gate_ready += rd;
@@ -593,7 +647,7 @@ pub fn run(args: &Args, rep: &mut Report) {
             }
         }
     }
-    rep.rule = "for the rustls-0.23 and OpenSSL acceptor services over an in-memory duplex under Tokio's paused clock: handshake_timeout in {100, 700, 3000, 5000} ms x clients {complete rustls client, complete OpenSSL client, garbage then idle, garbage then close, immediate disconnect, silent, \
+    rep.rule = "for the rustls-0.23 and OpenSSL acceptor services, and with a thinned repetition count the rustls-0.20 / 0.21 / 0.22 and native-tls ones, over an in-memory duplex under Tokio's paused clock: handshake_timeout in {100, 700, 3000, 5000} ms x clients {complete rustls client, complete OpenSSL client, garbage then idle, garbage then close, immediate disconnect, silent, \
                 and for every byte position of the recorded client flights of a successful handshake: stall after n bytes / close after n bytes}; oracle in virtual time: the accept future resolves no later than the timeout with a stream, a TLS error or Timeout; a stalled handshake yields Timeout at exactly the timeout; \
                 complete handshakes are followed by random payloads (0..64 KiB, split writes) in both directions compared byte for byte. Concurrency gate: per limit 1..3, on a fresh thread, random sequences of {poll_ready (+call with a silent client when Ready), end one handshake} with up to 5 concurrent calls, \
                 poll_ready compared with the reference counter and the parked waker's wake count checked when a handshake ends. Distinct = distinct (acceptor, client behaviour, timeout) or gate op sequence."
@@ -611,5 +665,10 @@ pub fn run(args: &Args, rep: &mut Report) {
     rep.add("obs_gate_scenarios", seen.gate_scenarios);
     rep.add("obs_acceptors_built_from_clone", seen.acceptors_built_from_clone);
     rep.add("obs_exchanges_over_small_server_transport", seen.small_transport_buffers);
+    for (k, name) in [(Kind::Rustls20, "rustls_0_20"), (Kind::Rustls21, "rustls_0_21"), (Kind::Rustls22, "rustls_0_22"), (Kind::NativeTls, "native_tls")] {
+        rep.add(&format!("obs_handshakes_completed_{name}"), seen.kind_ok[k as usize]);
+        rep.add(&format!("obs_timeouts_at_exact_deadline_{name}"), seen.kind_timeouts[k as usize]);
+        rep.add(&format!("obs_gate_scenarios_{name}"), seen.kind_gates[k as usize]);
+    }
     rep.max("max_concurrent_handshakes", seen.max_concurrent);
 }
